@@ -20,6 +20,11 @@ EachBoundOnce(bset, recv) == \A id \in bset : TimesTo(recv, id) = 1
 \* nothing is delivered to a sender that is not (or no longer) bound
 OnlyBound(bset, recv) == \A i \in DOMAIN recv : recv[i].id \in bset
 
+\* Two calls that overlap in time may take effect in either order.  A write that overlaps a Bind or
+\* Unbind is right if its deliveries are right for the set S of senders bound before that call or for
+\* the set bound after it:
+LinearizedOn(S, recv) == EachBoundOnce(S, recv) /\ OnlyBound(S, recv)
+
 \* ctx maps a sender id to what was negotiated for it: [ssrc, pt]
 RewrittenHeader(ctx, recv) ==
   \A i \in DOMAIN recv :
